@@ -29,11 +29,28 @@ def eff_purge(cfg):
     return bool(cfg.get('purge'))
 
 
+def _in(k, d):
+    """membership that tolerates an un-hashable key (a non-flat raw keymap yields (args, {kwds}) tuples): such a key is in no dict"""
+    try:
+        return k in d
+    except TypeError:
+        return False
+
+
+def _hk(k):
+    """a hashable stand-in for a key (the key itself when it is hashable)"""
+    try:
+        hash(k)
+        return k
+    except TypeError:
+        return ('unhashable', repr(k))
+
+
 def stored_pre(tr):
     """was the call's key retrievable before the call (memory or attached archive)?"""
-    if tr.key in tr.pre.mem:
+    if _in(tr.key, tr.pre.mem):
         return 'mem'
-    if tr.pre.archived and tr.pre.arch is not None and tr.key in tr.pre.arch:
+    if tr.pre.archived and tr.pre.arch is not None and _in(tr.key, tr.pre.arch):
         return 'arch'
     return None
 
@@ -84,8 +101,8 @@ class C02(Monitor):
                 out.append((_sig(self.cfg, 'C02', 'evaluated-though-stored', where=where),
                             'call %r evaluated the function although its result was in %s' % (tr.call, where)))
             if n >= 1 and kind == 'call':
-                self.evals[tr.key] = self.evals.get(tr.key, 0) + 1
-                if self.evals[tr.key] > 1 and not out:
+                self.evals[_hk(tr.key)] = self.evals.get(_hk(tr.key), 0) + 1
+                if self.evals[_hk(tr.key)] > 1 and not out:
                     out.append((_sig(self.cfg, 'C02', 'key-evaluated-twice'),
                                 'key %r evaluated twice although it was never evicted without archive nor cleared' % (tr.key,)))
             if set(tr.pre.mem) - set(tr.post.mem):
@@ -154,7 +171,7 @@ class C05(Monitor):
             # (a call that evaluated nested calls is excluded: the overflow may have happened -- and emptied the cache --
             #  inside, after which the outer result is stored)
             if eff_purge(cfg) and tr.pre.archived and tr.raised is None and not tr.incoherent \
-                    and not tr.extra.get('nested') and tr.key not in tr.pre.mem and pre + 1 > m and post != 0:
+                    and not tr.extra.get('nested') and not _in(tr.key, tr.pre.mem) and pre + 1 > m and post != 0:
                 out.append((_sig(cfg, 'C05', 'purge-not-empty'),
                             'purge=True archived overflow left %d entries in memory' % post))
         return out
@@ -279,7 +296,7 @@ class C06(Monitor):
 
     def nontrivial(self, S, tr):
         m = eff_maxsize(self.cfg)
-        return (tr.ev[0] == 'call' and m not in (0, None) and tr.key not in tr.pre.mem
+        return (tr.ev[0] == 'call' and m not in (0, None) and not _in(tr.key, tr.pre.mem)
                 and len(tr.pre.mem) + 1 > m and len(set(self.order)) >= 1
                 and not (eff_purge(self.cfg) and tr.pre.archived))
 
@@ -316,7 +333,7 @@ class C07(Monitor):
         if kind in CALLS and tr.pre.archived and tr.post.arch is not None:
             new = {}
             if kind == 'call' and tr.exc is None and tr.logdelta:
-                new[tr.key] = tr.ret
+                new[_hk(tr.key)] = tr.ret
             leaving = dict(tr.pre.mem)
             leaving.update(new)
             for k, v in leaving.items():
@@ -343,7 +360,7 @@ class C07(Monitor):
                                     '%s entry %r changed from %r to %r during %r' % (name, k, v, side_post[k], tr.ev)))
         # retrievable invariant
         if kind == 'call' and tr.exc is None and tr.logdelta:
-            self.computed[tr.key] = tr.ret
+            self.computed[_hk(tr.key)] = tr.ret
         retr = dict(tr.post.mem)
         if tr.post.arch:
             retr.update(tr.post.arch)
@@ -454,7 +471,7 @@ class C16(Monitor):
         if evald == 0:
             # answered from the cache: the function was never asked, nothing can raise -- provided there was an entry to
             # answer from.  A call whose key is stored nowhere has to ask the function, and then its exception is due
-            stored = tr.key in tr.pre.mem or tr.key in (tr.pre.arch or ()) or tr.key in (tr.pre.swap or ())
+            stored = _in(tr.key, tr.pre.mem) or _in(tr.key, tr.pre.arch or ()) or _in(tr.key, tr.pre.swap or ())
             if tr.exc is None and tr.ev[0] == 'raise' and not stored:
                 out.append((_sig(cfg, 'C16', 'raising-call-answered-without-evaluation', exc=kind),
                             'no result is stored for this call (key %r) and the function raises %s for it, but the call returned %r '
@@ -485,7 +502,7 @@ class C16(Monitor):
         km = cfg.get('keymap', 'default')
         if tr.exc is not None:
             out.append((_sig(cfg, 'C16', 'safe-call-raises', exc=type(tr.exc).__name__, value=vk, keymap=km,
-                             archived=bool(tr.pre.archived)),
+                             archived=bool(tr.pre.archived), backend=cfg['backend']),
                         'safe decorator raised %r for argument of kind %s (keymap %s)' % (tr.exc, vk, km)))
             return out
         want = ('u', type(tr.extra['value']).__name__, 0)
@@ -539,8 +556,8 @@ class C18(Monitor):
                 out.append((_sig(cfg, 'C18', 'key-raises', exc=type(tr.exc).__name__), 'key() raised %r' % (tr.exc,)))
             elif tr.ret != tr.key or type(tr.ret) is not type(tr.key):
                 out.append((_sig(cfg, 'C18', 'key-unstable'), 'key() returned %r, earlier %r' % (tr.ret, tr.key)))
-        if kind == 'lookup':
-            resident = tr.key in tr.pre.mem
+        if kind == 'lookup' and _hk(tr.key) is tr.key:      # (under an un-hashable key nothing can be resident, and a dict lookup raises TypeError)
+            resident = _in(tr.key, tr.pre.mem)
             if resident:
                 if tr.exc is not None:
                     out.append((_sig(cfg, 'C18', 'lookup-raises-for-resident', exc=type(tr.exc).__name__),
@@ -557,14 +574,14 @@ class C18(Monitor):
                 out.append((_sig(cfg, 'C18', 'wrapped-not-original'), '__wrapped__ is not the original function'))
         # a call answered without evaluating the function was answered from the entry key() names
         if kind == 'call' and tr.exc is None and not tr.logdelta and not tr.extra.get('nested'):
-            if not (tr.key in tr.pre.mem or tr.key in (tr.pre.arch or ()) or tr.key in (tr.pre.swap or ())):
+            if not (_in(tr.key, tr.pre.mem) or _in(tr.key, tr.pre.arch or ()) or _in(tr.key, tr.pre.swap or ())):
                 out.append((_sig(cfg, 'C18', 'answered-from-entry-key-does-not-name'),
                             'the call was answered (%r) without evaluation, but key() = %r names no stored entry; memory holds %r' % (
                                 tr.ret, tr.key, sorted(map(repr, tr.pre.mem)))))
         # a stored call is found under key(): after a call, if anything holds the result it is under tr.key
         if kind == 'call' and tr.exc is None and not tr.incoherent and tr.logdelta:
             new_mem = set(tr.post.mem) - set(tr.pre.mem)
-            if new_mem - {tr.key}:
+            if new_mem - {_hk(tr.key)}:
                 out.append((_sig(cfg, 'C18', 'key-not-storage-key'), 'new memory keys %r, key() %r' % (new_mem, tr.key)))
         return out
 
